@@ -666,29 +666,29 @@ func writeEvidence(prop, tier string, seed uint64, spec propSpec, h *harnessSpec
 	}
 	sort.Strings(knownSeen)
 	cov := map[string]any{
-		"evaluations":         a.runs,
-		"distinct_nontrivial": len(a.hashes),
-		"nontrivial_runs":     a.nontrivial,
-		"rule":                a.rule,
-		"samples":             samples,
-		"runs_per_hour":       int64(rph),
-		"simulated_seconds":   int64(a.simSeconds),
-		"steps":               a.steps,
-		"faults_fired":        a.faults,
-		"probes":              a.probes,
-		"probes_never_hit":    a.zeroProbes(spec),
-		"distinct_states":     len(a.states),
-		"strategies":          a.strategies,
-		"counters":            a.info,
-		"max_runnable_tasks":  a.maxRunnable,
-		"real_components":     a.real,
-		"stub_components":     a.stub,
-		"known_findings_seen": knownSeen,
+		"evaluations":                        a.runs,
+		"distinct_nontrivial":                len(a.hashes),
+		"nontrivial_runs":                    a.nontrivial,
+		"rule":                               a.rule,
+		"samples":                            samples,
+		"runs_per_hour":                      int64(rph),
+		"simulated_seconds":                  int64(a.simSeconds),
+		"steps":                              a.steps,
+		"faults_fired":                       a.faults,
+		"probes":                             a.probes,
+		"probes_never_hit":                   a.zeroProbes(spec),
+		"distinct_states":                    len(a.states),
+		"strategies":                         a.strategies,
+		"counters":                           a.info,
+		"max_runnable_tasks":                 a.maxRunnable,
+		"real_components":                    a.real,
+		"stub_components":                    a.stub,
+		"known_findings_seen":                knownSeen,
 		"runs_discarded_for_budget_overflow": a.discarded,
-		"instrumentation":     a.instr,
-		"race_build":          h.race,
-		"build_s":             a.buildS,
-		"exhaustive":          false,
+		"instrumentation":                    a.instr,
+		"race_build":                         h.race,
+		"build_s":                            a.buildS,
+		"exhaustive":                         false,
 	}
 	ev := map[string]any{
 		"property_id": prop,
